@@ -14,6 +14,14 @@
 //	time            time.Now/Since/Until/After/Tick/NewTimer/NewTicker/Sleep, utility.GetTime
 //	rand            any function of math/rand, math/rand/v2, crypto/rand
 //	global-write    assignment whose left side is rooted in a package-level variable of the module
+//	singleton-write write (assignment, ++/--, delete, mutating method of a foreign container such as
+//	                lru.Cache / sync.Map / atomic) through a value of a LONG-LIVED type: a module type that a
+//	                package-level variable can hold (closure of the variables' types through pointers,
+//	                containers, struct fields and interface implementers) and that is neither an explicit
+//	                argument of block execution (receiver/parameter types of the roots: VMExecutor, AccountDB,
+//	                Transaction, BlockHeader ...) nor instantiated by a function reachable from block execution
+//	                (per-execution objects). This is process-local memo state: a cache added to
+//	                RewardCalculator, MinerManager, an executor ... is a new site.
 //
 // A site is (file, function, kind, detail); detail is the operand/callee text plus the operand type and,
 // for repeated identical sites inside one function, an occurrence number. No line numbers: sites are
@@ -63,7 +71,14 @@ var RootMethodNames = map[string]bool{"BeforeExecute": true, "Execute": true}
 
 type Site struct{ File, Func, Kind, Detail string }
 
+// methods of foreign container / atomic types that change the receiver
+var mutatingName = map[string]bool{"Add": true, "Set": true, "Store": true, "Put": true, "Remove": true, "Delete": true, "Push": true,
+	"PushBack": true, "PushFront": true, "Purge": true, "LoadOrStore": true, "LoadAndDelete": true, "ContainsOrAdd": true, "PeekOrAdd": true,
+	"Swap": true, "CompareAndSwap": true, "Insert": true, "Pop": true, "RemoveOldest": true, "Resize": true, "Reset": true, "Clear": true,
+	"Inc": true, "Dec": true, "Write": true, "WriteString": true}
+
 type Stats struct {
+	LongLived                                               int
 	Packages, Functions, Reachable, TypeErrors, FakeImports int
 	MissingRoots                                            []string
 }
@@ -78,6 +93,13 @@ type fn struct {
 	pkg   *types.Package
 	edges []*types.Func
 	sites []Site
+	cands []cand            // possible singleton-writes, decided after the reachability is known
+	inst  []*types.TypeName // named types instantiated here (composite literal, new)
+}
+
+type cand struct {
+	expr  string
+	types []*types.TypeName // module named types on the access path, root first
 }
 
 type loaded struct {
@@ -541,7 +563,116 @@ func Scan(repo string) ([]Site, Stats, error) {
 				}
 			}
 		}
+		// local aliases of one level: c := reward.cache ; c[k] = v
+		alias := map[types.Object]ast.Expr{}
+		ast.Inspect(x.body, func(n ast.Node) bool {
+			if as, ok := n.(*ast.AssignStmt); ok && as.Tok == token.DEFINE && len(as.Lhs) == len(as.Rhs) {
+				for i, l := range as.Lhs {
+					if id, ok := l.(*ast.Ident); ok {
+						if o := x.info.Defs[id]; o != nil {
+							switch o.Type().Underlying().(type) {
+							case *types.Map, *types.Slice, *types.Pointer:
+								alias[o] = as.Rhs[i]
+							}
+						}
+					}
+				}
+			}
+			return true
+		})
+		modNamed := func(t types.Type) *types.TypeName {
+			for {
+				if p, ok := t.(*types.Pointer); ok {
+					t = p.Elem()
+					continue
+				}
+				break
+			}
+			if n, ok := t.(*types.Named); ok && n.Obj().Pkg() != nil && strings.HasPrefix(n.Obj().Pkg().Path(), Module) {
+				if _, isStruct := n.Underlying().(*types.Struct); isStruct {
+					return n.Obj()
+				}
+			}
+			return nil
+		}
+		var pathTypes func(e ast.Expr, depth int) []*types.TypeName
+		pathTypes = func(e ast.Expr, depth int) []*types.TypeName {
+			var res []*types.TypeName
+			for e != nil {
+				if t := x.info.TypeOf(e); t != nil {
+					if tn := modNamed(t); tn != nil {
+						res = append([]*types.TypeName{tn}, res...)
+					}
+				}
+				switch v := e.(type) {
+				case *ast.Ident:
+					if o := x.info.Uses[v]; o != nil && depth < 2 {
+						if r, ok := alias[o]; ok {
+							res = append(pathTypes(r, depth+1), res...)
+						}
+					}
+					e = nil
+				case *ast.SelectorExpr:
+					if id, ok := v.X.(*ast.Ident); ok {
+						if _, isPkg := x.info.Uses[id].(*types.PkgName); isPkg {
+							e = nil
+							continue
+						}
+					}
+					e = v.X
+				case *ast.IndexExpr:
+					e = v.X
+				case *ast.StarExpr:
+					e = v.X
+				case *ast.ParenExpr:
+					e = v.X
+				case *ast.SliceExpr:
+					e = v.X
+				case *ast.CallExpr: // getter returning an internal container: x.table()[k] = ..; a returned
+					// pointer/struct is taken as a new value (decoded from the state, e.g. GetMiner)
+					e = nil
+					if t := x.info.TypeOf(v); t != nil {
+						switch t.Underlying().(type) {
+						case *types.Map, *types.Slice:
+							e = v.Fun
+						}
+					}
+				default:
+					e = nil
+				}
+			}
+			return res
+		}
+		write := func(e ast.Expr, how string) {
+			// the written location itself (a struct value stored in a variable) is not a path type
+			var inner ast.Expr
+			switch v := e.(type) {
+			case *ast.SelectorExpr:
+				inner = v.X
+			case *ast.IndexExpr:
+				inner = v.X
+			case *ast.StarExpr:
+				inner = v.X
+			case *ast.SliceExpr:
+				inner = v.X
+			case *ast.ParenExpr:
+				inner = v.X
+			case *ast.Ident:
+				if o := x.info.Uses[v]; o != nil {
+					if r, ok := alias[o]; ok && how != "assign" {
+						inner = r
+					}
+				}
+			}
+			if inner == nil {
+				return
+			}
+			if ts := pathTypes(inner, 0); len(ts) > 0 {
+				x.cands = append(x.cands, cand{expr: how + " " + short(e), types: ts})
+			}
+		}
 		lhs := func(e ast.Expr) {
+			write(e, "assign")
 			id := rootIdent(e)
 			if id == nil {
 				return
@@ -566,8 +697,27 @@ func Scan(repo string) ([]Site, Stats, error) {
 				switch f := fun.(type) {
 				case *ast.Ident:
 					callFun[f] = v
+					if b, ok := x.info.Uses[f].(*types.Builtin); ok {
+						switch {
+						case b.Name() == "delete" && len(v.Args) == 2:
+							write(&ast.IndexExpr{X: v.Args[0], Index: v.Args[1]}, "delete")
+						case b.Name() == "new" && len(v.Args) == 1:
+							if tn := modNamed(x.info.TypeOf(v.Args[0])); tn != nil {
+								x.inst = append(x.inst, tn)
+							}
+						}
+					}
 				case *ast.SelectorExpr:
 					callFun[f.Sel] = v
+					if sel := x.info.Selections[f]; sel != nil && sel.Kind() == types.MethodVal && mutatingName[f.Sel.Name] {
+						if m, ok := sel.Obj().(*types.Func); ok && m.Pkg() != nil && !strings.HasPrefix(m.Pkg().Path(), Module) {
+							write(&ast.SelectorExpr{X: f.X, Sel: f.Sel}, "call")
+						}
+					}
+				}
+			case *ast.CompositeLit:
+				if tn := modNamed(x.info.TypeOf(v)); tn != nil {
+					x.inst = append(x.inst, tn)
 				}
 			case *ast.SelectorExpr:
 				selOf[v.Sel] = v
@@ -637,16 +787,151 @@ func Scan(repo string) ([]Site, Stats, error) {
 		st.MissingRoots = append(st.MissingRoots, "src/executor.*.{BeforeExecute,Execute}")
 	}
 	var sites []Site
+	var reached []*fn
 	for len(work) > 0 {
 		x := work[len(work)-1]
 		work = work[:len(work)-1]
 		analyse(x)
 		sites = append(sites, x.sites...)
+		reached = append(reached, x)
 		for _, e := range x.edges {
 			push(fns[e.Origin()])
 		}
 	}
 	st.Reachable = len(seen)
+
+	// ---- long-lived types: what a package-level variable of the module can hold ----
+	longLived := map[*types.TypeName]bool{}
+	var visitT func(t types.Type, depth int)
+	visitT = func(t types.Type, depth int) {
+		if t == nil || depth > 12 {
+			return
+		}
+		switch u := t.(type) {
+		case *types.Pointer:
+			visitT(u.Elem(), depth+1)
+		case *types.Slice:
+			visitT(u.Elem(), depth+1)
+		case *types.Array:
+			visitT(u.Elem(), depth+1)
+		case *types.Chan:
+			visitT(u.Elem(), depth+1)
+		case *types.Map:
+			visitT(u.Key(), depth+1)
+			visitT(u.Elem(), depth+1)
+		case *types.Struct:
+			for i := 0; i < u.NumFields(); i++ {
+				visitT(u.Field(i).Type(), depth+1)
+			}
+		case *types.Interface:
+			if u.NumMethods() == 0 {
+				return
+			}
+			for _, nt := range named {
+				if types.Implements(types.NewPointer(nt), u) || types.Implements(nt, u) {
+					visitT(nt, depth+1)
+				}
+			}
+		case *types.Named:
+			if u.Obj().Pkg() == nil || !strings.HasPrefix(u.Obj().Pkg().Path(), Module) {
+				return
+			}
+			if longLived[u.Obj()] {
+				return
+			}
+			switch uu := u.Underlying().(type) {
+			case *types.Struct:
+				longLived[u.Obj()] = true
+				visitT(uu, depth+1)
+			default:
+				visitT(uu, depth+1)
+			}
+		}
+	}
+	var pkgPaths []string
+	for path := range l.pkgs {
+		pkgPaths = append(pkgPaths, path)
+	}
+	sort.Strings(pkgPaths)
+	for _, path := range pkgPaths {
+		ld := l.pkgs[path]
+		if ld == nil || ld.pkg == nil || !strings.HasPrefix(path, Module) {
+			continue
+		}
+		sc := ld.pkg.Scope()
+		for _, n := range sc.Names() {
+			if v, ok := sc.Lookup(n).(*types.Var); ok {
+				visitT(v.Type(), 0)
+			}
+		}
+	}
+	// explicit arguments of block execution, and per-execution objects
+	explicit := map[*types.TypeName]bool{}
+	isRoot := func(x *fn) bool {
+		for _, r := range Roots {
+			if x.key == r {
+				return true
+			}
+		}
+		return relPkg(x.pkg.Path()) == "src/executor" && RootMethodNames[x.obj.Name()]
+	}
+	namedOf := func(t types.Type) *types.TypeName {
+		for {
+			if p, ok := t.(*types.Pointer); ok {
+				t = p.Elem()
+				continue
+			}
+			break
+		}
+		if n, ok := t.(*types.Named); ok {
+			return n.Obj()
+		}
+		return nil
+	}
+	for _, x := range reached {
+		if !isRoot(x) {
+			continue
+		}
+		sig := x.obj.Type().(*types.Signature)
+		if sig.Recv() != nil && relPkg(x.pkg.Path()) != "src/executor" { // executor objects live in a global table
+			if tn := namedOf(sig.Recv().Type()); tn != nil {
+				explicit[tn] = true
+			}
+		}
+		for i := 0; i < sig.Params().Len(); i++ {
+			if tn := namedOf(sig.Params().At(i).Type()); tn != nil {
+				explicit[tn] = true
+			}
+		}
+	}
+	perExec := map[*types.TypeName]bool{}
+	for _, x := range reached {
+		for _, tn := range x.inst {
+			perExec[tn] = true
+		}
+	}
+	st.LongLived = len(longLived)
+	for _, x := range reached {
+		occ := map[string]int{}
+		for _, c := range x.cands {
+			var hit *types.TypeName
+			for _, tn := range c.types {
+				if longLived[tn] && !explicit[tn] && !perExec[tn] {
+					hit = tn
+					break
+				}
+			}
+			if hit == nil {
+				continue
+			}
+			detail := hit.Pkg().Name() + "." + hit.Name() + " : " + c.expr
+			occ[detail]++
+			if occ[detail] > 1 {
+				detail = fmt.Sprintf("%s #%d", detail, occ[detail])
+			}
+			sites = append(sites, Site{x.file, x.name, "singleton-write", detail})
+		}
+	}
 	if All {
 		for _, x := range fns {
 			if !seen[x] {
